@@ -53,7 +53,11 @@ func c17Script(c *Ctx, track bool, gen string) Case {
 				if r.P(1, 3) {
 					nn = r.Pick("Guest123", cur+"_", "me")
 				}
-				evs = append(evs, nsEvent{"001 " + drv.H(nn), "001 " + nn})
+				if r.P(1, 3) {
+					evs = append(evs, nsEvent{"001nomask " + drv.H(nn), "001(no mask) " + nn})
+				} else {
+					evs = append(evs, nsEvent{"001 " + drv.H(nn), "001 " + nn})
+				}
 				reg, cur = true, nn
 			}
 			continue
